@@ -97,19 +97,180 @@ def inline_candidates(P):
     return cands, used
 
 
+def inject_shapes(P, ch):
+    """add program shapes that the optional passes rewrite (DESIGN 4/C04): cloned single-clause relations (also with a
+    different representation or a choice-domain), duplicated clauses with permuted bodies and renamed variables, copy
+    relations (plain and through record patterns), constant-constant constraints in alternative spellings, sums of a
+    constant. Returns (names of added output relations, names excluded from comparison, labels)."""
+    added, excluded, labels = [], [], []
+    NUM = dlgen.NUMBER
+    fresh = [0]
+
+    def new_rel(types, tag):
+        fresh[0] += 1
+        r = dlgen.Rel("x%s%d" % (tag, fresh[0]), list(types), "idb")
+        r.group = len(P.groups)
+        P.add_rel(r)
+        P.groups.append([r.name])
+        return r
+    singles = [n for n in P.order if P.rels[n].kind == "idb" and not P.rels[n].recursive and len(P.rules_of(n)) == 1]
+    # (s1) clone of a single-clause relation
+    for _ in range(ch.int(0, 2)):
+        if not singles:
+            break
+        n = ch.choice(singles)
+        src = P.rels[n]
+        variant = ch.weighted([(3, "same"), (2, "brie"), (3, "choice")])
+        if variant == "choice" and len(src.types) == 0:
+            variant = "same"
+        c = new_rel(src.types, "c")
+        P.rules.append(dlgen.copy_rule(P.rules_of(n)[0], head_rel=c.name))
+        if variant == "brie":
+            c.quals.append("brie")
+        elif variant == "choice":
+            c.extra_decl = "choice-domain " + c.attrs[ch.int(0, len(c.attrs) - 1)]
+            excluded.append(c.name)
+        src.output = True
+        if src.name not in added:
+            added.append(src.name)
+        if variant != "choice":
+            added.append(c.name)
+        else:
+            c.output = True
+        labels.append("shape:clone_" + variant)
+    # (s2) duplicated clause, body permuted, variables renamed
+    for _ in range(ch.int(0, 2)):
+        cands = [r for r in P.rules if r.body and "rec" not in r.tags]
+        if not cands:
+            break
+        r = ch.choice(cands)
+        d = dlgen.copy_rule(r, ren=lambda nm: nm + "d")
+        d.order = ch.shuffle(list(range(len(d.body))))
+        P.rules.insert(P.rules.index(r) + 1, d)
+        labels.append("shape:duplicate_clause")
+    # (s3) copy relation (plain variables or record patterns)
+    for _ in range(ch.int(0, 2)):
+        srcs = [P.rels[n] for n in P.order if len(P.rels[n].types) > 0 and P.rels[n].name not in excluded]
+        if not srcs:
+            break
+        src = ch.choice(srcs)
+        c = new_rel(src.types, "k")
+        k = [0]
+
+        def pat(ty, depth=0):
+            k[0] += 1
+            if isinstance(ty, dlgen.RecT) and depth < 2 and ch.bool(0.5):
+                return dlgen.RecInit([pat(ft, depth + 1) for ft in ty.fields], ty)
+            return Var("c%d_%d" % (fresh[0], k[0]), ty)
+        args = [pat(t) for t in src.types]
+        P.rules.append(dlgen.Rule(Atom(c.name, args), [Atom(src.name, [dlgen.copy_term(a, lambda nm: nm) for a in args])]))
+        added.append(c.name)
+        labels.append("shape:copy_relation" + ("_record_pattern" if any(isinstance(a, RecInit) for a in args) else ""))
+    # (s4) constant-constant constraints in alternative spellings
+    for _ in range(ch.int(0, 2)):
+        cands = [r for r in P.rules if r.body]
+        if not cands:
+            break
+        r = ch.choice(cands)
+        ty = ch.choice([NUM, dlgen.UNSIGNED, dlgen.FLOAT])
+        v = dlgen.gen_value(ch, ty, dlgen.Feat(), small_only=True)
+        if ty == NUM and v < 0:
+            v = -v
+        w = v if ch.bool(0.6) else dlgen.gen_value(ch, ty, dlgen.Feat(), small_only=True)
+        if ty == NUM and w < 0:
+            w = -w
+        a = Const(v, ty, dlgen.alt_spelling(ch, v, ty) if ch.bool(0.7) else None)
+        b = Const(w, ty, dlgen.alt_spelling(ch, w, ty) if ch.bool(0.4) else None)
+        r.body.append(Cmp(ch.choice(["=", "!="]), a, b, ty))
+        r.order.append(len(r.body) - 1)
+        labels.append("shape:const_constraint")
+    # (s5) sum of a constant
+    if ch.bool(0.3):
+        srcs = [P.rels[n] for n in P.order if len(P.rels[n].types) > 0 and P.rels[n].name not in excluded]
+        if srcs:
+            src = ch.choice(srcs)
+            c = new_rel([NUM], "s")
+            loc = [Var("s%d_%d" % (fresh[0], i), t) for i, t in enumerate(src.types)]
+            z = Var("s%d_z" % fresh[0], NUM)
+            agg = Agg("sum", Const(ch.int(1, 4), NUM), [Atom(src.name, list(loc))], NUM, list(loc))
+            P.rules.append(dlgen.Rule(Atom(c.name, [z]), [Cmp("=", z, agg, NUM)]))
+            added.append(c.name)
+            labels.append("shape:sum_of_constant")
+    return added, excluded, labels
+
+
 def gen(ch):
     P = dlgen.generate(ch, dlgen.Feat())
     idb = [n for n in P.order if P.rels[n].kind == "idb"]
     outs = [n for n in idb if ch.bool(0.5)] or [idb[-1]]
     for n in idb:
         P.rels[n].output = n in outs
-    base_text, facts = dlgen.to_souffle(P)
+    shape_labels = []
+    if ch.bool(0.6):
+        added, excluded, shape_labels = inject_shapes(P, ch)
+        # the passes leave IO relations alone: the injected relations stay internal and are observed through reader relations
+        for n in added:
+            src = P.rels[n]
+            if src.kind != "idb" or n in outs:
+                continue
+            src.output = False
+            rd = dlgen.Rel("o_" + n, list(src.types), "idb")
+            rd.group = len(P.groups)
+            P.add_rel(rd)
+            P.groups.append([rd.name])
+            vs = [Var("o%d" % i, t) for i, t in enumerate(src.types)]
+            P.rules.append(dlgen.Rule(Atom(rd.name, list(vs)), [Atom(n, list(vs))]))
+            rd.output = True
+            outs.append(rd.name)
+        for n in excluded:
+            P.rels[n].output = True
+        outs = [n for n in outs if n not in excluded]
     variant = {"args": []}
     cands, used = inline_candidates(P)
     marks = {}
     mode = ch.weighted([(5, "disable"), (3, "inline"), (2, "both")]) if cands else "disable"
+    if mode in ("inline", "both"):
+        for n in cands:
+            if ch.bool(0.6):
+                marks[n] = ch.weighted([(3, "inline"), (1, "no_inline")])
+        if not marks:
+            marks[ch.choice(cands)] = "inline"
+        # readers that use an inlined relation several times in one clause, with unnamed arguments, joined and unjoined
+        multi = [n for n in marks if marks[n] == "inline" and len(P.rels[n].types) >= 1
+                 and not any(isinstance(t, dlgen.RecT) for t in P.rels[n].types)]
+        for n in multi[:2]:
+            if not ch.bool(0.7):
+                continue
+            src = P.rels[n]
+            k = ch.int(0, len(src.types) - 1)
+            v1, v2 = Var("m1", src.types[k]), Var("m2", src.types[k])
+            a1 = [v1 if i == k else Wild(t) for i, t in enumerate(src.types)]
+            a2 = [v2 if i == k else Wild(t) for i, t in enumerate(src.types)]
+            rd = dlgen.Rel("om_" + n, [src.types[k], src.types[k]], "idb")
+            rd.group = len(P.groups)
+            P.add_rel(rd)
+            P.groups.append([rd.name])
+            body = [Atom(n, a1), Atom(n, a2)]
+            if ch.bool(0.3):
+                body.append(Atom(n, [Wild(t) for t in src.types]))
+            P.rules.append(dlgen.Rule(Atom(rd.name, [v1, v2]), body))
+            rd.output = True
+            outs.append(rd.name)
+            used.add(n)
+            shape_labels.append("shape:inlined_relation_used_twice_with_wildcards")
+    base_text, facts = dlgen.to_souffle(P)
     if mode in ("disable", "both"):
-        dis = (ch.subset(OPT, 0.3) or [ch.choice(OPT)]) if ch.bool(0.3) else [ch.choice(OPT)]
+        # bias the disabled pass towards the passes the injected shapes are meant for
+        match = {"shape:clone": "MinimiseProgramTransformer", "shape:duplicate": "MinimiseProgramTransformer",
+                 "shape:copy": "RemoveRelationCopiesTransformer", "shape:const": "SimplifyConstantBinaryConstraintsTransformer",
+                 "shape:sum": "RemoveRedundantSumsTransformer"}
+        wanted = sorted({v for k, v in match.items() if any(l.startswith(k) for l in shape_labels)})
+        if wanted and ch.bool(0.65):
+            dis = [ch.choice(wanted)]
+            if ch.bool(0.2):
+                dis += [d for d in ch.subset(OPT, 0.2) if d not in dis]
+        else:
+            dis = (ch.subset(OPT, 0.3) or [ch.choice(OPT)]) if ch.bool(0.3) else [ch.choice(OPT)]
         variant["args"].append("--disable-transformers=" + ",".join(dis))
     excluded = False
     if mode == "both" and "RemoveRedundantRelationsTransformer" in dis:
@@ -119,15 +280,10 @@ def gen(ch):
         variant["args"] = ["--disable-transformers=" + ",".join(dis)]
         excluded = True
     if mode in ("inline", "both"):
-        for n in cands:
-            if ch.bool(0.6):
-                marks[n] = ch.weighted([(3, "inline"), (1, "no_inline")])
-        if not marks:
-            marks[ch.choice(cands)] = "inline"
         for n, q in marks.items():
             P.rels[n].quals.append(q)
         variant["program"] = dlgen.to_souffle(P)[0]
-    return {"program": base_text, "facts": facts, "base": {"args": []}, "variant": variant, "relations": outs,
+    return {"program": base_text, "facts": facts, "base": {"args": []}, "variant": variant, "relations": outs, "shapes": shape_labels,
             "marks": marks, "marks_used": sorted(n for n in marks if n in used), "excluded_known": excluded}
 
 
@@ -156,6 +312,8 @@ def judge(case, st=None):
             st.nontrivial.add(common.h(case["program"] + repr(case["variant"])))
             for d in fired:
                 st.classes["fired:" + d] += 1
+            for l in set(case.get("shapes", [])):
+                st.classes[l] += 1
             if inl:
                 st.classes["inline_on_used_relation"] += 1
             st.sample({"program": case["variant"].get("program", case["program"]), "facts": case["facts"],
